@@ -32,7 +32,7 @@ ASSUMPTIONS = [
     "pencil's spectrum; the singular-factorisation raise of _sparse_eigvec_sens is the known finding recorded for C01",
 ]
 
-TEMPLATES = ["T1", "T1", "T2", "T2", "T3", "T4", "T5", "T6", "T7", "T8"]
+TEMPLATES = ["T1", "T1", "T2", "T2", "T3", "T4", "T5", "T6", "T7", "T8", "T9"]
 
 
 def budget(tier):
@@ -70,6 +70,9 @@ def strategy(tier):
         # boundary via override_padded_values, or a non-design block via override_values), as in
         # examples/topology_optimization/ex_compliance_padding_filter.py
         "fc_override": st.sampled_from(["none", "none", "padded", "values"]),
+        # T9: dtype of the design over the history: float throughout / integer-typed first design (np.ones(nel, dtype=int))
+        # and an integer element matrix, then float designs / real and complex designs alternating
+        "t9_dtypes": st.sampled_from(["float", "int_then_float", "real_complex"]),
         "final_k": st.integers(0, 3), "final_seeds": st.lists(st.integers(0, 3), min_size=1, max_size=3),
         "final_mode": st.sampled_from(SET_MODES),
     })
@@ -386,7 +389,50 @@ def build(case):
         if o["solver"] == "nolda":
             mods[1].use_lda_solver = False
         return Net(pym.Network(mods), [x], [c, u], designs, 1e-5, labels + ["void_solid_designs"])
+    if T == "T9":
+        # design -> AssembleGeneral with boundary conditions -> y = K v: an assembler whose input dtype widens over the
+        # history (no solver involved, so the matrix class detection of LinSolve plays no role)
+        dom = pym.DomainDefinition(max(2, o["nx"]), max(2, o["ny"]))
+        mode = o.get("t9_dtypes", "float")
+        nn = 4
+        Ke = rng.integers(-3, 4, (nn, nn)) if mode == "int_then_float" else rng.standard_normal((nn, nn))
+        Ke = Ke + Ke.T
+        nodes = np.asarray(dom.nodes).reshape(dom.nelx + 1, dom.nely + 1)
+        bc = np.unique(nodes[0, :])
+        designs = [rng.uniform(0.2, 1.0, dom.nel) for _ in range(4)]
+        if mode == "int_then_float":
+            designs[0] = np.ones(dom.nel, dtype=int)
+        elif mode == "real_complex":
+            for j in (1, 3):
+                designs[j] = designs[j] * np.exp(1j * rng.uniform(0.2, 1.0, dom.nel))
+            labels.append("matrix_dtype_changes")
+        x, K, y = S("x", designs[0].copy()), S("K"), S("y")
+        v = rng.standard_normal(dom.nnodes)
+        mods = [pym.AssembleGeneral(x, K, dom, element_matrix=Ke, bc=bc), _matvec()(K, y, v)]
+        return Net(pym.Network(mods), [x], [y], designs, 1e-9, labels + [f"t9:{mode}"])
     raise ValueError(T)
+
+
+_MATVEC = []
+
+
+def _matvec():
+    if _MATVEC:
+        return _MATVEC[0]
+    import pymoto as pym
+
+    class C03MatVec(pym.Module):
+        """y = K v for a fixed real vector v; adjoint with respect to the sparse matrix: the dyad dy v^T"""
+        def _prepare(self, v):
+            self.v = v
+
+        def _response(self, K):
+            return K @ self.v
+
+        def _sensitivity(self, dy):
+            return pym.DyadCarrier(np.array(dy), self.v.copy())
+    _MATVEC.append(C03MatVec)
+    return C03MatVec
 
 
 _DYN = []
@@ -614,7 +660,8 @@ def check_case(case):
             cur_k = op["k"]
             cur = used.sources[0].state
             new = used.designs[cur_k]
-            if op.get("mode", "rebind") == "inplace" and isinstance(cur, np.ndarray) and cur.shape == np.shape(new):
+            if op.get("mode", "rebind") == "inplace" and isinstance(cur, np.ndarray) and cur.shape == np.shape(new) \
+                    and cur.dtype == np.asarray(new).dtype:
                 cur[...] = new          # the design array is updated in place (same object, new values)
                 labels.append("set_inplace")
             else:
